@@ -4,6 +4,15 @@ mod c24;
 
 fn main() {
     vcommon::install_panic_hook();
+    // Every case opens and drops an in-memory SQLite database; without this glibc gives the heap top
+    // back to the kernel and re-grows it ~100 times per case (brk storms dominate the run time).
+    // SAFETY: mallopt only tunes the allocator; called before any other thread exists.
+    unsafe {
+        use vcommon::libc;
+        libc::mallopt(libc::M_TRIM_THRESHOLD, 1 << 30);
+        libc::mallopt(libc::M_TOP_PAD, 64 << 20);
+        libc::mallopt(libc::M_MMAP_THRESHOLD, 1 << 30);
+    }
     let args = vcommon::Args::parse();
     match args.prop.as_str() {
         "C24" => c24::run(&args),
